@@ -100,7 +100,7 @@ func (s Seq) String() string {
 }
 
 // Families lists the generic families usable at any length.
-var Families = []string{"uniform", "biased", "slight", "zeros", "ones", "alt", "periodic", "byteperiodic", "markov", "singlerun", "sparse", "lfsr", "balanced", "longruns"}
+var Families = []string{"uniform", "biased", "slight", "zeros", "ones", "alt", "periodic", "byteperiodic", "markov", "singlerun", "sparse", "lfsr", "balanced", "longruns", "debruijn", "counter"}
 
 // Explicit wraps a concrete bit vector into a descriptor.
 func Explicit(bits []uint8) Seq {
@@ -349,6 +349,46 @@ func (s Seq) Bits() []uint8 {
 					out[(blk-1)*7+j] = uint8(v >> uint(6-j) & 1)
 				}
 			}
+		}
+	case "debruijn": // binary de Bruijn sequence B(2,A) (A<=0: the largest order with 2^A <= n), repeated/cut to n: every A-bit pattern equally often (cyclically)
+		k := s.A
+		if k <= 0 {
+			k = 1
+			for 1<<uint(k+1) <= n && k < 24 {
+				k++
+			}
+		}
+		// prefer-one construction via the standard recursive (FKM) algorithm
+		a := make([]int, 2*k+1)
+		seq := make([]uint8, 0, 1<<uint(k))
+		var db func(t, p int)
+		db = func(t, p int) {
+			if t > k {
+				if k%p == 0 {
+					for i := 1; i <= p; i++ {
+						seq = append(seq, uint8(a[i]))
+					}
+				}
+				return
+			}
+			a[t] = a[t-p]
+			db(t+1, p)
+			for j := a[t-p] + 1; j < 2; j++ {
+				a[t] = j
+				db(t+1, t)
+			}
+		}
+		db(1, 1)
+		rot := 0
+		if s.B > 0 {
+			rot = s.B % len(seq)
+		}
+		for i := range out {
+			out[i] = seq[(i+rot)%len(seq)]
+		}
+	case "counter": // the bytes 00,01,..,FF repeated (every byte value, hence every nibble and bit pair, equally often)
+		for i := range out {
+			out[i] = uint8(((i / 8) & 0xFF) >> (7 - uint(i%8)) & 1)
 		}
 	case "bytepat": // Hex pattern bytes repeated
 		pat, _ := hex.DecodeString(s.Hex)
